@@ -123,6 +123,12 @@ class C18(Prop):
             ((0,), (0,), (1, 1), (1, 1), (1, 1), (1, 1), (1, 1), (1, 1), (1, 1), (0,), (1, 0), (1, 2), (1, 2), (1, 2), (1, 2), (1, 2),
              (2, 2), (2, 0), (3,), (2, 1)),
         ]
+        # a pass served from the file cache runs to its end (or is dropped mid-way), then further passes are made
+        again = ((0,), (1, 0), (1, 0), (1, 0), (1, 0), (1, 0), (1, 0), (0,), (1, 1), (1, 1), (1, 1), (1, 1), (1, 1), (1, 1), (0,),
+                 (1, 2), (1, 2), (1, 2), (1, 2), (1, 2), (0,), (1, 3), (1, 3), (2, 3), (0,), (1, 4), (1, 4), (1, 4), (1, 4), (1, 4),
+                 (2, 0), (2, 1), (2, 2), (2, 4), (3,))
+        yield Case('tf_run', (4, 2, True, None, again))
+        yield Case('tf_run', (3, 1, True, None, again))
         # fromdicts(<generator>): a lagging iterator re-reads an old record of the spill file, then the leader draws a new row
         lag = ((0,), (0,), (1, 0), (1, 0), (1, 0), (1, 0), (1, 1), (1, 1), (1, 0), (1, 1), (1, 1), (1, 1), (1, 1), (1, 1), (0,),
                (1, 2), (1, 2), (1, 2), (1, 2), (1, 2), (1, 2), (2, 0), (2, 1), (2, 2), (3,))
